@@ -102,6 +102,17 @@ class C14(PropBase):
                 rng.shuffle(order)
                 steps.append({"op": "cut", "t": t, "hex": raw[:-1].hex(), "order": order, "mod": rng.choice(mods)})
                 continue
+            if rng.random() < 0.04:
+                # a long message of multi-byte characters: its size in characters and its size in bytes lie on
+                # different sides of the round numbers (4 Ki, 64 Ki, ...) a size limit would be set at
+                nchars = rng.choice([1500, 3000, 22000, 30000, 45000, 60000])
+                ch = rng.choice(["\u6771", "\u00e9", "\U0001f600"])
+                parts = [ch * (nchars // 4)] * 4
+                s = repr(parts) if rng.random() < 0.6 else json.dumps(parts, ensure_ascii=False)
+                order = list(hist.CARRIERS)
+                rng.shuffle(order)
+                steps.append({"op": "carriers", "t": {"k": "list", "a": {"k": "str"}}, "s": s, "order": order, "mod": rng.choice(mods)})
+                continue
             kind = core.weighted(rng, [(6, "carriers"), (3, "text_vs_value"), (4, "load"), (2 if "buffer_reuse" in sw else 0, "reuse"),
                                        (2 if "mutate_loaded" in sw else 0, "load_mutate")])
             mod = rng.choice(mods)
